@@ -68,6 +68,30 @@ theorem C08_pullid_matches_list_intercepted (f : ι → ι) (p : Option (Pred ι
   refine ⟨fun ho => ?_, hl.2⟩
   have := hl.1 ho; rw [h.2.1] at this; exact this
 
+/-- `PullID(id, WithInclude p)` WITHOUT backpressure (the default): the underlying Pull's stream goes through the
+`mergeCollectionExcess` goroutine first.  For every predicate, contents, write history and EVERY recv/emit
+pattern `ms` of that goroutine fed with exactly the published events: at every moment, while PullID's loop has
+not closed the stream, the value last sent is the entry of the id in the fold of what the underlying Pull has
+delivered so far; once everything pending has been taken that is the entry `List(WithInclude p)` has for the id
+after the writes; and the loop closes the stream iff in the DELIVERED (merged) history the item left the
+filtered collection at some step.  (Which of the item's intermediate versions are sent, and whether a
+remove-and-re-add is seen as leaving, depends on the pattern: the merged stream is set-valued.) -/
+theorem C08_pullid_lossy_matches_list (p : Option (Pred ι μ)) (items : List (ι × μ)) (hn : NodupKeys items)
+    (order : List (ι × μ)) (hperm : order.Perm (itemSlice p items)) (t t' : Nat) (ops : List (Op ι μ))
+    (ms : List (Move (Change ι μ))) (hms : inputs ms = (runOps t items ops).2) (i : ι) :
+    let r := runOps t items ops
+    let c := run Cfg.init ms
+    let stream := seedFrom t' order ++ c.emitted.filterMap (includeChange p)
+    let out := pullIdLoop i stream
+    (out.2 = false → held none out.1 = fold stream View.empty i) ∧
+    (out.2 = false → c.st.pending = [] → held none out.1 = viewOf (itemSlice p r.1) i) ∧
+    out.2 = everLeft i View.empty stream := by
+  have h := C08_pull_lossy_matches_list p items hn order hperm t t' ops ms hms
+  simp only at h ⊢
+  have hl := pullIdLoop_wf i _ View.empty h.1
+  refine ⟨fun ho => hl.1 ho, fun ho hd => ?_, hl.2⟩
+  have := hl.1 ho; rw [h.2 hd] at this; exact this
+
 /-- What forwarding the caller's predicate is needed for (NOT the code: a PullID that narrows the underlying
 Pull to its id by an include option of its own, which takes the single include slot the caller's predicate
 was in).  Item 1 = 7 stored, the caller's predicate "values below 5": `List(WithInclude p)` does not list the
